@@ -310,6 +310,10 @@ class Sess:
             return
         forced = getattr(self, "force_next", None)
         self.force_next = None
+        if getattr(self, "opened", False) and not getattr(self, "idled", False) and rng.random() < self.k.get("idle_prob", 0.02):
+            # more than a whole second without traffic: nothing about the next request may depend on wall-clock time
+            self.idled = True
+            time.sleep(1.15)
         if not getattr(self, "opened", False):
             op = "open"
             forced = None
